@@ -22,6 +22,12 @@ func VfC20_Requests() {
 	cmd := cmds[nd.Concrete(nd.Choice("cmd", len(cmds)))]
 	raw := newRawRequest(newStringArray(cmd, "k", "v"))
 	nd.PanicLabel("request-stats")
+	stopEarly := nd.Bool("upstream-told-to-quit-before-the-request")
+	stopOnRedirect := !stopEarly && nd.Bool("upstream-told-to-quit-before-the-redirection")
+	if stopEarly {
+		close(p.u.quit) // the service is stopping: requests still in the pipe are refused by the upstream
+		nd.Cover("refused-by-stopping-upstream")
+	}
 	p.handleRequest(raw)
 	// drive every forwarded request to completion
 	moved := 0
@@ -40,6 +46,9 @@ func VfC20_Requests() {
 						moved++
 						reply = newError("MOVED 1 " + b)
 						nd.Cover("redirected")
+						if stopOnRedirect {
+							close(p.u.quit)
+						}
 					} else {
 						reply = newInteger(1)
 					}
